@@ -203,7 +203,7 @@ def enc_items(items):
 def show_item(it):
     k = it[0]
     if k == 'call':
-        return 'call %s cb%d m%d t%d @s%d' % (SLOTS[it[1]], it[2], it[3], it[4], it[5])
+        return 'call %s cb%d m%d t%d @s%s' % (SLOTS[it[1]], it[2], it[3], it[4], it[5])
     if k == 'done':
         if it[2] == 0:
             return 'done cb%d -> %s' % (it[1], bool(it[3]))
